@@ -42,3 +42,8 @@ def c02(ctx):
 @register("C17")
 def c17(ctx):
     return evalfam.check_c17(ctx)
+
+
+@register("C04")
+def c04(ctx):
+    return evalfam.check_c04(ctx)
